@@ -580,6 +580,15 @@ func (e *Enc) loopHeader(fr *Frame, h *ssa.BasicBlock, li *loopInfo, st *State, 
 	if fr.con != nil {
 		spec = fr.con.Loops[li.ordinal]
 	}
+	if os.Getenv("GVC_DEBUG_LOOPS") != "" {
+		var names []string
+		for _, ins := range h.Instrs {
+			if phi, ok := ins.(*ssa.Phi); ok {
+				names = append(names, phi.Comment)
+			}
+		}
+		fmt.Fprintf(os.Stderr, "loop %d of %s: header block %d, vars %v, pos %s\n", li.ordinal, fr.fn.Name(), h.Index, names, e.pos(fr, loopPos(h)))
+	}
 	lc := &loopCtx{spec: spec, info: li, preSt: st.clone()}
 	fr.hdrEnv[h] = lc
 	prefix := e.topName()
